@@ -171,8 +171,27 @@ fn connect(case: &Value) -> Value {
         want_host = Some("127.0.0.1".into());
         _stall = Some(std::thread::spawn(move || { if let Ok((s, _)) = l.accept() { std::thread::sleep(Duration::from_millis(2500)); drop(s); } }));
     }
+    // role-based replay for "the URL's explicit port is the one dialled": a listener on a free port, named in the URL
+    let mut target_hit: Option<std::sync::Arc<std::sync::atomic::AtomicBool>> = None;
+    if case["target_listener"].as_bool() == Some(true) {
+        let l = std::net::TcpListener::bind("127.0.0.1:0").unwrap();
+        let port = l.local_addr().unwrap().port();
+        url_s = format!("{}://127.0.0.1:{}/", case["scheme"].as_str().unwrap_or("ldap"), port);
+        want_host = Some("127.0.0.1".into());
+        let hit = std::sync::Arc::new(std::sync::atomic::AtomicBool::new(false));
+        let h2 = hit.clone();
+        l.set_nonblocking(true).ok();
+        std::thread::spawn(move || {
+            let t0 = std::time::Instant::now();
+            while t0.elapsed() < Duration::from_millis(1500) {
+                if let Ok((s, _)) = l.accept() { h2.store(true, std::sync::atomic::Ordering::SeqCst); std::thread::sleep(Duration::from_millis(300)); drop(s); return; }
+                std::thread::sleep(Duration::from_millis(5));
+            }
+        });
+        target_hit = Some(hit);
+    }
     let url = match url::Url::parse(&url_s) { Ok(u) => u, Err(e) => return json!({"r": "stub-mismatch", "why": format!("url parse: {}", e)}) };
-    let want_port = if case["stall_listener"].as_bool() == Some(true) { url.port() } else { want_port };
+    let want_port = if case["stall_listener"].as_bool() == Some(true) || target_hit.is_some() { url.port() } else { want_port };
     if url.host_str().map(|s| s.to_string()) != want_host || url.port() != want_port {
         return json!({"r": "stub-mismatch", "host": url.host_str(), "port": url.port()});
     }
@@ -199,6 +218,10 @@ fn connect(case: &Value) -> Value {
     let from_std = case["stream"].as_str().map(|s| s.to_lowercase());
     let rt = rt();
     let r = rt.block_on(async { tokio::time::timeout(Duration::from_millis(1500), LdapConnAsync::from_url_with_settings(settings, &url)).await });
+    if let Some(hit) = target_hit {
+        std::thread::sleep(Duration::from_millis(100));
+        return json!({"r": "target", "accepted": hit.load(std::sync::atomic::Ordering::SeqCst), "result": match r { Err(_) => "hang".to_string(), Ok(Ok(_)) => "ok".to_string(), Ok(Err(e)) => format!("{:?}", e).chars().take(40).collect() }});
+    }
     match r {
         Err(_) => json!({"r": "hang"}),
         Ok(Ok(_)) => { let _ = std::fs::remove_file(format!("/tmp/verif:sock_{}", std::process::id())); json!({"r": "ok", "from_std": from_std}) }
